@@ -189,3 +189,109 @@ Proof.
   - right. left. unfold gpresent. now rewrite Eg.
 Qed.
 End Sound.
+
+(* ------------------------------------------------------------------ every run, and the release *)
+From Coercion.C04 Require AllObjs.
+From Coercion.ImgWf Require Import CrashImage FullProofs.
+From Coercion.C10x Require Import EngineImg GroupInv Sound Release.
+
+Section Runs.
+Variable sh : shape.
+Variable J : dimg.
+Hypothesis MS : mem_sound sh J.
+Hypothesis RS : repair_sound sh J.
+Hypothesis Hwf : img_wf0 sh J = true.
+Hypothesis Hrun : ist J OPlan = Running.
+Hypothesis Hshort : short_d sh J = false.
+
+Record K3 (r : rst) : Prop := { k3_k : K2 sh J r; k3_d : DI sh J r }.
+
+Lemma K2_rhandle d r e r' : K2 sh J r -> rhandle d sh r e = Some r' -> K2 sh J r'.
+Proof.
+  intros [[A B C] D E] H.
+  constructor; [constructor; [exact (proj1 (handle_inv sh J RS d _ _ _ A H))|eapply M_rhandle; eauto|eapply GR_rhandle; eauto]|eapply WAR_rhandle; eauto|eapply PL_rhandle; eauto].
+Qed.
+
+Lemma K2_flush r e r' : K2 sh J r -> flush sh r e = Some r' -> K2 sh J r'.
+Proof.
+  intros [[A B C] D E] H.
+  constructor; [constructor; [exact (proj1 (flush_inv sh J _ _ _ A H))|eapply M_flush; eauto|eapply GR_flush; eauto]|eapply WAR_flush; eauto|eapply PL_flush; eauto].
+Qed.
+
+Lemma K3_reps r r1 : K3 r -> reps sh r = Some r1 -> K3 r1.
+Proof.
+  intros [A B] H. constructor; [eapply K2_reps; eauto|].
+  eapply (DI_reps sh J (entry_pd sh J Hwf Hrun Hshort)); eauto. exact (k_inv _ _ _ (k2_k _ _ _ A)).
+Qed.
+
+Lemma K3_rhandle d r e r' : K3 r -> rhandle d sh r e = Some r' -> K3 r'.
+Proof.
+  intros [A B] H. constructor; [eapply K2_rhandle; eauto|].
+  eapply DI_rhandle; eauto; [exact (k_inv _ _ _ (k2_k _ _ _ A))|exact (k2_w _ _ _ A)].
+Qed.
+
+Lemma K3_flush r e r' : K3 r -> flush sh r e = Some r' -> K3 r'.
+Proof. intros [A B] H. constructor; [eapply K2_flush; eauto|eapply DI_flush; eauto]. Qed.
+
+Theorem K3_run d rs r0 tr r : rinit sh J rs = Some r0 -> rrun d sh r0 tr = Some r -> K3 r.
+Proof.
+  intro Hi. apply rrun_inv.
+  - apply rstep_inv; [apply K3_reps|intros r1 e r2; apply K3_rhandle|intros r1 e r2; apply K3_flush].
+  - constructor; [eapply (K2_run sh J d rs r0 [] r0); eauto|].
+    eapply (DI_rinit sh J (entry_pd sh J Hwf Hrun Hshort) (m0_pchk sh J)); eauto.
+Qed.
+
+Lemma release_phase d r fin r' : r_ph r = RRun -> r_release d sh r fin = Some r' -> s_ph (r_s r) = PEnd.
+Proof.
+  unfold r_release. intros -> H. destruct (all_flushed sh r && quiet d sh (r_I r) (mget r)); [|discriminate].
+  apply option_map_some in H as (s' & H & _). unfold h_release in H.
+  destruct (pphase_eqb (s_ph (r_s r)) PEnd) eqn:E; [|discriminate]. now apply pphase_eqb_true.
+Qed.
+
+(* clause (ii), plan scope *)
+Theorem plan_deferred_ran d rs tr fin r0 r :
+  rinit sh J rs = Some r0 -> rrun d sh r0 (tr ++ [EvRelease fin]) = Some r ->
+  grp_present sh SPlan GDeferred = true -> scope_entered sh fin SPlan = true ->
+  finished fin (OChecks SPlan GDeferred) = true.
+Proof.
+  intros Hi H Hdef Hent. rewrite rrun_app in H. destruct (rrun d sh r0 tr) as [r1|] eqn:E1; [|discriminate].
+  simpl in H. destruct (rstep d sh r1 (EvRelease fin)) as [r2|] eqn:E2; [|discriminate]. injection H as <-.
+  pose proof (K3_run d rs r0 tr r1 Hi E1) as K1.
+  destruct (rstep_release _ _ _ _ _ E2) as (r1' & Hs & Hr).
+  pose proof (reps_star_inv K3 sh K3_reps _ _ Hs K1) as [K2' D'].
+  assert (Hrun' : r_ph r1' = RRun).
+  { eapply live_release_run; [|exact Hr]. exact (i_live _ _ _ (k_inv _ _ _ (k2_k _ _ _ K2'))). }
+  pose proof (release_phase _ _ _ _ Hrun' Hr) as Hpe.
+  assert (Hread : forall o, In o (all_objs sh) -> exists c, im_lookup fin o = Some c /\ ocell_cell c = mget r1' o).
+  { intros o Ho. eapply released_mem; eauto. }
+  assert (Hst : forall o, obj_in_shape sh o = true -> cst fin o = mst (mget r1') o).
+  { intros o Ho. apply (read_st sh fin (mget r1') Hread). now apply AllObjs.all_objs_spec. }
+  destruct (di_pd _ _ _ D' (or_introl Hpe)) as [[Hb Hc]|[Hn|Ht]].
+  - exfalso. unfold scope_entered in Hent. apply andb_true_iff in Hent as [Hent _]. apply negb_true_iff in Hent.
+    assert (Hgb : grp_present sh SPlan GBypass = true) by exact Hb.
+    rewrite Hgb in Hent. rewrite Hst in Hent by exact Hgb. unfold pchk in Hc. rewrite Hc in Hent. discriminate.
+  - exfalso. assert (Hgd : gpresent sh GDeferred = true) by exact Hdef. congruence.
+  - unfold finished. rewrite Hst by exact Hdef. exact Ht.
+Qed.
+End Runs.
+
+(* ------------------------------------------------------------------ at crash images of accepted engine traces *)
+Section Crash3.
+  Variables (sh : shape) (tr1 : list event) (s1 : st) (k : nat).
+  Hypothesis Hrun : run sh init tr1 = Some s1.
+  Variable I : image.
+  Hypothesis Hag : image_agrees (all_objs sh) (fst (crash_image sh tr1 k)) (snd (crash_image sh tr1 k)) I = true.
+  Hypothesis Hpl : cst I OPlan = Running.
+  Hypothesis Hshort : short_circuits sh I = false.
+
+  Theorem crash_plan_deferred_ran d tr fin r0 r :
+    rinit sh (dimg_of_image I) (im_reason I) = Some r0 ->
+    rrun d sh r0 (tr ++ [EvRelease fin]) = Some r ->
+    grp_present sh SPlan GDeferred = true -> scope_entered sh fin SPlan = true ->
+    finished fin (OChecks SPlan GDeferred) = true.
+  Proof.
+    intros Hi H. destruct (crash_sound sh tr1 s1 k Hrun I Hag Hpl r0 Hi) as [MS RS].
+    apply (plan_deferred_ran sh (dimg_of_image I) MS RS (crash_read_wf0 sh tr1 s1 k Hrun I Hag) (crash_plan_running I Hpl)
+             ltac:(rewrite <- short_d_image; exact Hshort) d (im_reason I) tr fin r0 r Hi H).
+  Qed.
+End Crash3.
